@@ -5,7 +5,7 @@ import vlib
 from vlib import CheckError
 
 STAT_NAMES = ["initiations_answered", "initiations_refused", "responses_accepted", "responses_refused",
-              "data_accepted", "data_refused", "device_initiations", "ref_verdict_ok", "ref_verdict_failed", "restarts", "cookie_replies"]
+              "data_accepted", "data_refused", "device_initiations", "ref_verdict_ok", "ref_verdict_failed", "restarts", "cookie_replies", "key_changes"]
 
 
 class Prop:
@@ -14,7 +14,9 @@ class Prop:
     vo_props = ["theories/Props/C03.vo"]
     k_names = ["handshake(device co-simulated against ref == Noise.Model.dev_step against Noise.Paper parties)",
                "wire(device-emitted initiation/response bytes decode with Wire.Codec to the fields ref parsed)"]
-    rule = ("handshake scenarios from one PRNG, 16 templates (the last five: device Down/Up between handshakes in both roles with "
+    rule = ("handshake scenarios from one PRNG, 19 templates (the last three: private-key rotation with configured peers followed "
+            "by handshakes in both roles under the new identity and refused initiations for the old one; peers configured before any "
+            "private key; before those: the last five: device Down/Up between handshakes in both roles with "
             "non-zero / mismatching psk; unauthentic cookie replies -- garbage, wrong key, wrong or outdated MAC1 as associated "
             "data, right receiver index -- before a retransmitted initiation and before a response; an authentic cookie reply): ref initiates / device initiates (TUN or hook) x psk "
             "{zero, random, mismatching in three ways} x identity {configured, unconfigured, the device's own key} x "
@@ -44,7 +46,7 @@ class Prop:
         return meta, files
 
     def generate(self, seed, tier, mult):
-        n = (64 if tier == "quick" else 960) * mult
+        n = (76 if tier == "quick" else 950) * mult
         shards = 8 if tier == "quick" else 32
         exe = vlib.build_go("c03")
         rc, o = vlib.sh([exe, "-seed", str(seed), "-n", str(n), "-shards", str(shards), "-out", self.dir,
@@ -104,7 +106,8 @@ class Prop:
         d = os.path.join(self.dir, "rerun")
         os.makedirs(d, exist_ok=True)
         inp = os.path.join(d, "in.json")
-        json.dump([{"parties": c["parties"], "steps": c["steps"], "gen": c.get("gen", "replay")} for c in cases], open(inp, "w"))
+        json.dump([{"parties": c["parties"], "steps": c["steps"], "gen": c.get("gen", "replay"), "nopriv": bool(c.get("nopriv"))}
+                   for c in cases], open(inp, "w"))
         exe = vlib.build_go("c03")
         rc, o = vlib.sh([exe, "-replay", inp, "-out", d], cwd=vlib.ROOT, timeout=1800)
         if rc != 0:
@@ -122,7 +125,7 @@ class Prop:
             for i in range(0, n, chunk):
                 cand = steps[:i] + steps[i + chunk:]
                 if cand and len(cand) < n:
-                    yield {"parties": case["parties"], "steps": cand, "gen": case.get("gen", "")}
+                    yield {"parties": case["parties"], "steps": cand, "gen": case.get("gen", ""), "nopriv": bool(case.get("nopriv"))}
             chunk //= 2
 
     def signature(self, case, f):
